@@ -1,4 +1,7 @@
 import MoPepGen.Driver.C10
+import MoPepGen.Driver.C15
+import MoPepGen.Driver.C16
+import MoPepGen.Driver.C14
 import MoPepGen.Driver.Pipe
 import MoPepGen.Driver.C12
 import MoPepGen.Driver.C20
@@ -20,6 +23,9 @@ def dispatch (line : String) : String :=
   | "C13" :: args => MoPepGen.Driver.C13.handle args
   | "C18" :: args => MoPepGen.Driver.C18.handle args
   | "C19" :: args => MoPepGen.Driver.C19.handle args
+  | "C14" :: args => MoPepGen.Driver.C14.handle args
+  | "C16" :: args => MoPepGen.Driver.C16.handle args
+  | "C15" :: args => MoPepGen.Driver.C15.handle args
   | _ => "bad-stream"
 
 partial def loop (h : IO.FS.Stream) (out : IO.FS.Stream) : IO Unit := do
